@@ -36,13 +36,6 @@ class Sim:
         self.files = {}
         self.dirs = []
         self.now = 10
-        for s in self.g['srcs']:
-            self.now += 1
-            self.files[s] = {'c': s + "#0", 'm': self.now}
-        for dd, info in self.g.get('dd_files', {}).items():
-            if not info['produced']:
-                self.now += 1
-                self.files[dd] = {'c': models.dyndep_text(self.g, dd), 'm': self.now}
         self.edit_n = 0
         self.model = Make()
         self.logdir = probe.newdir()
@@ -54,6 +47,12 @@ class Sim:
         self.stop = False           # set after a known finding: the tree is off the rails, stop the history
         self.check = check or {}
         self.last = None
+        self.setup_backend()
+        for s in self.g['srcs']:
+            self.write(s, s + "#0")
+        for dd, info in self.g.get('dd_files', {}).items():
+            if not info['produced']:
+                self.write(dd, models.dyndep_text(self.g, dd))
 
     def close(self):
         self.probe.rmdir(self.logdir)
@@ -72,9 +71,25 @@ class Sim:
         self.edit_n += 1
         return "K%d" % c if c < 3 else "%s#%d" % (s, self.edit_n)
 
+    # ---- file-system primitives (overridden by the E2E backend, which works on a real directory)
+    def setup_backend(self):
+        pass
+
     def write(self, path, content):
         self.now += 1
         self.files[path] = {'c': content, 'm': self.now}
+
+    def touch(self, path):
+        if path in self.files:
+            self.now += 1
+            self.files[path]['m'] = self.now
+
+    def delete(self, path):
+        self.files.pop(path, None)
+
+    def execute(self, req):
+        """runs one invocation described by a SIM request; returns the result dict (raises ProbeDied)"""
+        return self.probe.request(req)
 
     def add(self, prop, kind, detail, known=None, edges=None):
         """edges: statements the finding is about; used to attribute it to a listed known finding"""
@@ -139,23 +154,20 @@ class Sim:
                     e['hidden'] = [new if h == old else h for h in e['hidden']]
                     self.recent_hidden = [new]
                     src_in = [i for i in e['exp'] + e['imp'] if i in srcs][0]
-                    self.now += 1
-                    self.files[src_in]['m'] = self.now
+                    self.touch(src_in)
                     self.labels.add('swap_hidden_same_content')
         elif k == 'wipe_outs' and cmds:
             if not any(self.unordered_hidden(e) for e in cmds):
                 for e in cmds:
                     for o in all_outs(e):
-                        self.files.pop(o, None)
+                        self.delete(o)
                 self.labels.add('wipe_outs')
         elif k == 'touch':
             s = srcs[op['a'] % len(srcs)]
-            if s in self.files:
-                self.now += 1
-                self.files[s]['m'] = self.now
+            self.touch(s)
         elif k == 'del_out' and cmds:
             outs = [o for e in cmds for o in all_outs(e)]
-            self.files.pop(outs[op['a'] % len(outs)], None)
+            self.delete(outs[op['a'] % len(outs)])
         elif k == 'variant' and cmds:
             e = cmds[op['a'] % len(cmds)]
             e['variant'] = 'v%d' % op['b']
@@ -169,7 +181,7 @@ class Sim:
             es = [e for e in cmds if e.get('deps') == 'depfile' and not self.unordered_hidden(e)]
             if es:
                 e = es[op['a'] % len(es)]
-                self.files.pop(models.depfile_path(e), None)
+                self.delete(models.depfile_path(e))
                 self.labels.add('del_depfile')
         elif k == 'drop_log':
             es = [e for e in cmds]
@@ -177,6 +189,27 @@ class Sim:
                 e = es[op['a'] % len(es)]
                 self.drop_log_records(all_outs(e))
                 self.labels.add('drop_log')
+        elif k == 'bloat_log':
+            p = os.path.join(self.logdir, ".ninja_log")
+            try:
+                raw = open(p, "rb").read()
+            except FileNotFoundError:
+                raw = b""
+            lines = [l for l in raw.split(b"\n")[1:] if l.count(b"\t") >= 4]
+            if lines and raw.endswith(b"\n"):
+                uniq = len(set(l.split(b"\t")[3] for l in lines))
+                # exactly at the recompaction threshold (more than 100 entries and more than 3x the unique ones): the next
+                # build that records anything pushes the log over it, and the invocation after that recompacts
+                target = max(100, 3 * uniq)
+                add = []
+                while len(lines) + len(add) < target:
+                    add += lines
+                add = add[:max(0, target - len(lines))]
+                if add:
+                    # keep "last record per output" unchanged: the appended copies end with the original tail order
+                    with open(p, "wb") as f:
+                        f.write(raw.split(b"\n")[0] + b"\n" + b"\n".join(add + lines) + b"\n")
+                self.labels.add('bloat_log')
         elif k == 'wipe_deps':
             if not any(self.unordered_hidden(e) for e in cmds):
                 try:
@@ -191,8 +224,7 @@ class Sim:
                 e = es[op['a'] % len(es)]
                 cand = [i for i in e['exp'] + e['imp'] if i in srcs]
                 if cand:
-                    self.now += 1
-                    self.files[cand[0]]['m'] = self.now
+                    self.touch(cand[0])
                     self.labels.add('restat_noop_directed')
         elif k == 'edit_recent_hidden':
             if getattr(self, 'recent_hidden', None):
@@ -261,7 +293,7 @@ class Sim:
             extra['mid_edits'] = mid_edits
         req = self.request(targets, j, k, sched, faults, extra, establishing)
         try:
-            res = self.probe.request(req)
+            res = self.execute(req)
         except ProbeDied as d:
             known = None
             if ("RefreshDyndepDependents" in d.stderr and "!edge->outputs_ready()" in d.stderr
@@ -684,6 +716,9 @@ class Sim:
                 seq = [dict(op='swap_hidden_same_content', a=op['a'], b=op['b']), b_all, dict(op='edit_recent_hidden'), b_all]
             elif k == 'm_rehide_then_edit':
                 seq = [dict(op='rehide', a=op['a'], b=op['b'], c=op['c']), b_all, dict(op='edit_recent_hidden'), b_all]
+            elif k == 'm_bloat_then_rebuild':
+                # the log reaches the recompaction threshold, then an ordinary incremental build crosses it
+                seq = [dict(op='bloat_log'), dict(op='edit', a=op['a'], c=5), b_all]
             else:  # a failing build followed by a build in which the cause is gone
                 seq = [dict(op='edit', a=op['a'], c=op['c']), dict(b_all, faults=[(op['b'], 1 + op['c'], op['c'] % 2 == 0)]), b_all]
             for x in seq:
